@@ -41,6 +41,7 @@ type PathQ struct {
 	NoBack    bool                                   // do not follow back edges (target dominates source)
 	base      []ssa.CallInstruction                  // frames active when the query started
 	noDescend bool                                   // stay inside Fn (do not enter new helpers)
+	InitNil   []nilKnow                              // nil knowledge holding at the start site (the edge just taken)
 }
 
 type pstate struct {
@@ -369,7 +370,15 @@ func (q *PathQ) Reach(from Site, startFact uint64, target func(ssa.Instruction) 
 	}
 	seen := map[pstate]bool{}
 	var work []*item
-	work = append(work, &item{from.B, from.I, startFact, stack0, nil, nil})
+	var memo0 *memoNode
+	for _, nk := range q.InitNil {
+		if nk.isNil {
+			memo0 = pushMemo(memo0, c.resolve(nk.v), -1, nilYes, nil)
+		} else {
+			memo0 = pushMemo(memo0, c.resolve(nk.v), -1, nilNo, nil)
+		}
+	}
+	work = append(work, &item{from.B, from.I, startFact, stack0, memo0, nil})
 	savedFrames := c.frames
 	q.base = savedFrames
 	defer func() { c.frames = savedFrames }()
@@ -792,48 +801,63 @@ func (c *Ctx) nilTests(v ssa.Value) int {
 	if !ok || in.Parent() == nil {
 		return 0
 	}
-	fn := in.Parent()
-	if c.nilTestMemo == nil {
-		c.nilTestMemo = map[*ssa.Function]map[ssa.Value]int{}
-	}
-	m, ok := c.nilTestMemo[fn]
-	if !ok {
-		m = map[ssa.Value]int{}
-		for _, b := range fn.Blocks {
-			for _, in := range b.Instrs {
-				bo, ok := in.(*ssa.BinOp)
-				if !ok || (bo.Op != token.EQL && bo.Op != token.NEQ) {
-					continue
-				}
-				var x ssa.Value
-				if isConstNil(bo.Y) {
-					x = bo.X
-				} else if isConstNil(bo.X) {
-					x = bo.Y
-				} else {
-					continue
-				}
-				seen := map[ssa.Value]bool{}
-				var rec func(v ssa.Value)
-				rec = func(v ssa.Value) {
-					v = c.resolve(v)
-					if seen[v] {
-						return
+	if c.nilTestAll == nil {
+		m := map[ssa.Value]int{}
+		for _, fn := range c.Funcs {
+			for _, b := range fn.Blocks {
+				for _, in := range b.Instrs {
+					bo, ok := in.(*ssa.BinOp)
+					if !ok || (bo.Op != token.EQL && bo.Op != token.NEQ) {
+						continue
 					}
-					seen[v] = true
-					if p, ok := v.(*ssa.Phi); ok {
-						for _, e := range p.Edges {
-							rec(e)
+					var x ssa.Value
+					if isConstNil(bo.Y) {
+						x = bo.X
+					} else if isConstNil(bo.X) {
+						x = bo.Y
+					} else {
+						continue
+					}
+					seen := map[ssa.Value]bool{}
+					var rec func(v ssa.Value, depth int)
+					rec = func(v ssa.Value, depth int) {
+						v = c.resolve(v)
+						if seen[v] || depth > 4 {
+							return
 						}
+						seen[v] = true
+						switch x := v.(type) {
+						case *ssa.Phi:
+							for _, e := range x.Edges {
+								rec(e, depth)
+							}
+						case *ssa.Call:
+							// the result of a new helper: the test is also a test of what the helper returns
+							if cal := x.Common().StaticCallee(); cal != nil && c.isNew(cal) && cal.Signature.Results().Len() == 1 {
+								for _, ret := range returnsOf(cal) {
+									rec(ret.Results[0], depth+1)
+								}
+							}
+						case *ssa.Extract:
+							if call, ok := x.Tuple.(*ssa.Call); ok {
+								if cal := call.Common().StaticCallee(); cal != nil && c.isNew(cal) {
+									for _, ret := range returnsOf(cal) {
+										if x.Index < len(ret.Results) {
+											rec(ret.Results[x.Index], depth+1)
+										}
+									}
+								}
+							}
+						}
+						m[v]++
 					}
-					m[v]++
+					rec(x, 0)
 				}
-				rec(x)
 			}
 		}
-		c.nilTestMemo[fn] = m
+		c.nilTestAll = m
 	}
-	return m[v]
+	return c.nilTestAll[v]
 }
 
 // litEq matches the equality literal of two terms in either operand order.
